@@ -129,8 +129,9 @@ class IsotropicSolidAngle(BaseProposal):
     @norm.setter
     def norm(self, norm):
         """Sets the normalisation constants and checks it's positive."""
-        if not norm > 0:
-            raise ValueError("``normalisation must be > 0.")
+        # note: the normalisation underflows to zero for kappa > ~700
+        if not norm >= 0:
+            raise ValueError("``normalisation must be >= 0.")
         self._norm = norm
 
     @staticmethod
@@ -139,6 +140,14 @@ class IsotropicSolidAngle(BaseProposal):
         distribution on a 2-sphere.
         """
         return kappa / (4 * numpy.pi * numpy.sinh(kappa))
+
+    @staticmethod
+    def _lognormalisation(kappa):
+        """Calculates the log of the normalisation constant; this does not
+        overflow for large ``kappa``.
+        """
+        return numpy.log(kappa) - kappa - numpy.log(2 * numpy.pi) \
+            - numpy.log(-numpy.expm1(-2. * kappa))
 
     @property
     def _new_point(self):
@@ -238,7 +247,8 @@ class IsotropicSolidAngle(BaseProposal):
                                        convert=True)
         x = self._spherical2cartesian(*[xi[p] for p in self.parameters],
                                       convert=True)
-        return numpy.log(self.norm) + self.kappa * numpy.dot(mu, x)
+        return self._lognormalisation(self.kappa) \
+            + self.kappa * numpy.dot(mu, x)
 
     @property
     def state(self):
